@@ -216,7 +216,58 @@ def check_runs_tree(h: Harness):
             h.seen(f"noslot:{sc.step_str(tree)}:{n}", nontrivial=False)
 
 
+def check_elitism_beside_other_branches(h: Harness):
+    """an ElitismStep listed AFTER other branches of a ParallelStep must still see the whole input
+    population (a branch that edits the shared list -- e.g. a selection removing its winners --
+    would make elitism pick from the leftovers)"""
+    from geneticengine.algorithms.gp.operators.combinators import ParallelStep, SequenceStep
+    from geneticengine.algorithms.gp.operators.mutation import GenericMutationStep
+    from geneticengine.algorithms.gp.operators.selection import LexicaseSelection, TournamentSelection
+    rng = h.rng
+    for t in range(h.n(60, 600)):
+        n = rng.randint(4, 9)
+        ncomps = rng.randint(1, 3)
+        mins = [rng.random() < 0.5 for _ in range(ncomps)]
+        triples = []
+        for i in range(n):
+            comps = [rng.randint(0, 3) for _ in range(ncomps)]
+            agg = sum(-c if m else c for c, m in zip(comps, mins))
+            triples.append((i, agg, comps))
+        rep = StubRep(ncomps)
+        problem = sc.make_problem(mins)
+        inds = sc.make_pop(rep, triples)
+        first = rng.choice(["lexicase", "lexicase;mutation", "tournament", "tournament-norepl"])
+        branch = {"lexicase": lambda: LexicaseSelection(),
+                  "lexicase;mutation": lambda: SequenceStep(LexicaseSelection(), GenericMutationStep(1)),
+                  "tournament": lambda: TournamentSelection(2, with_replacement=True),
+                  "tournament-norepl": lambda: TournamentSelection(2)}[first]()
+        w = rng.choice([[1, 1], [2, 1], [3, 1], [1, 2]])
+        step = ParallelStep([branch, ElitismStep()], weights=w)
+        given = list(inds)
+        res = sc.run_step(step, problem, rep, sc.TwoStreamSource([rng.randrange(0, 1000) for _ in range(200)]), given, n)
+        h.seen(f"par-elitism:{t}:{first}:{w}:{triples}")
+        h.count(f"elitism-beside:{first}")
+        if isinstance(res, str):
+            continue
+        ranges = step.compute_ranges(inds, n)
+        k_elite = ranges[-1][1] - ranges[-1][0]
+        if k_elite <= 0:
+            continue
+        elite = res[-k_elite:]
+        aggs = sorted((a for (_, a, _) in triples), reverse=True)
+        got = sorted((e.genotype[1] for e in elite), reverse=True)
+        if got != aggs[:k_elite]:
+            h.fail("ParallelStep.apply", "elitism-slot-not-top-k-of-input",
+                   f"par[{first}, elitism]{w} on aggregates {[a for (_, a, _) in triples]}: the elitism slot returned aggregates {got}, "
+                   f"the best {k_elite} of the input population are {aggs[:k_elite]}", {"triples": triples, "first": first, "weights": w})
+        if [id(x) for x in given] != [id(x) for x in inds]:
+            h.fail("ParallelStep.apply", "input-population-list-modified",
+                   f"par[{first}, elitism]: the population list handed to the step was edited ({len(inds)} -> {len(given)} individuals)",
+                   {"triples": triples, "first": first})
+
+
 def run(h: Harness):
+    check_elitism_beside_other_branches(h)
     check_elitism(h)
     check_runs_stub(h)
     check_runs_tree(h)
